@@ -20,7 +20,7 @@ func init() {
 			"(c) in the loop that builds attestations, AggregationBits is a bitlist of committeeSizes[i] with bit validatorCommitteeIndices[i] set, Data.Index is committeeIndices[i], Data.Slot is duty.Slot(), root/source/target come from the data parameter and the signature is sigs[i], all with the same i; " +
 			"(d) an attestation is appended only when sigs[i] is non-zero; (e) committeeSizes[i] is duty.CommitteeSize(committeeIndices[i]) for the same i; " +
 			"(f) the committee indices and data fields handed to the signer are the same values used to build the attestations. " +
-			"Added with the third seeding round: (h) outside NewDuty nothing sorts, shuffles, overwrites or copies into an array of an attester duty (through its fields or its getters). Added with the fourth seeding round: (i) the per-validator arrays handed to the signer and the constructor are not fields of the service. Added with the fifth seeding round: (j) every pass of the loop that fills the per-validator arrays stores into all of them; (y) C03.j (per-slot arguments of NewDuty) is taken over. NOT decided: that the signer signs over these values (C06 covers its inputs), correctness of the beacon node's committee data, behaviour for arbitrary duty compositions beyond the index-space argument.",
+			"Added with the third seeding round: (h) outside NewDuty nothing sorts, shuffles, overwrites or copies into an array of an attester duty (through its fields or its getters). Added with the fourth seeding round: (i) the per-validator arrays handed to the signer and the constructor are not fields of the service. Added with the fifth seeding round: (j) every pass of the loop that fills the per-validator arrays stores into all of them; (y) C03.j (per-slot arguments of NewDuty) is taken over. Added with the sixth seeding round and the false-alarm regression: (j, generalised) per-validator arrays filled in one loop are filled together, by stores or by appends; (k) in the attestation signer the per-validator data arrays are never read at a constant position; (l) the attester writes no field of attestation data it did not build itself. NOT decided: that the signer signs over these values (C06 covers its inputs), correctness of the beacon node's committee data, behaviour for arbitrary duty compositions beyond the index-space argument.",
 		Technique: "index-space (provenance of indices) analysis on the typed AST with callee summaries; SSA provenance of composite-literal fields; guard-by-edge-deletion for the zero-signature test",
 		Rule:      "one obligation per analysed function with indexed accesses (a,b), per attestation field (c), per append (d), per store (e), per signer argument (f)",
 	})
@@ -316,6 +316,70 @@ func runC04(p *core.Prog, r *core.Report, tier string) {
 		}
 	}
 	r.Floor("C04.j fills of per-validator arrays in loops", nFill, 3)
+
+	// (k) in the signer the per-validator data arrays are read at the position of the validator being signed for, never
+	// at a fixed position (one root built from entry 0 and signed by every account)
+	nConstIdx := 0
+	for _, f := range p.FuncsIn("services/signer/standard") {
+		hasAccounts := false
+		for _, prm := range f.Params {
+			if sl, ok := prm.Type().Underlying().(*types.Slice); ok && strings.HasSuffix(sl.Elem().String(), ".Account") {
+				hasAccounts = true
+			}
+		}
+		if !hasAccounts || !strings.Contains(strings.ToLower(f.Name()), "beaconattestations") {
+			continue
+		}
+		core.EachInstr(f, func(in ssa.Instruction) {
+			ia, ok := in.(*ssa.IndexAddr)
+			if !ok {
+				return
+			}
+			prm, ok := ia.X.(*ssa.Parameter)
+			if !ok {
+				return
+			}
+			sl, ok := prm.Type().Underlying().(*types.Slice)
+			if !ok {
+				return
+			}
+			if _, isIface := sl.Elem().Underlying().(*types.Interface); isIface {
+				return // accounts[0] is looked at to learn the kind of signer
+			}
+			nConstIdx++
+			_, isConst := ia.Index.(*ssa.Const)
+			r.Check(!isConst, "C04.k", fmt.Sprintf("%s|%s|indexed-by-position#%d", core.FnKey(f), prm.Name(), nConstIdx), p.Pos(ia.Pos()), "the array is read at a position that varies with the validator", "the per-validator array "+prm.Name()+" is read at the fixed position "+ds.D(ia.Index).String()+": what is signed for every account is built from one validator's entry")
+		})
+	}
+	r.Floor("C04.k reads of per-validator data arrays in the attestation signer", nConstIdx, 2)
+
+	// (l) the attestation data obtained from the beacon nodes is signed and submitted as it was obtained: the attester
+	// writes no field of an AttestationData or Checkpoint it did not build itself
+	nDataW := 0
+	for _, f := range p.FuncsIn(attRel) {
+		core.EachInstr(f, func(in ssa.Instruction) {
+			st, ok := in.(*ssa.Store)
+			if !ok {
+				return
+			}
+			fa, ok := st.Addr.(*ssa.FieldAddr)
+			if !ok {
+				return
+			}
+			id, _, ok := core.FieldOfAddr(fa)
+			if !ok || !(strings.HasSuffix(id.Owner, "phase0.AttestationData") || strings.HasSuffix(id.Owner, "phase0.Checkpoint")) {
+				return
+			}
+			if _, own := fa.X.(*ssa.Alloc); own {
+				return // a literal being built here
+			}
+			nDataW++
+			r.Violate("C04.l", fmt.Sprintf("%s|writes-obtained-data|%s#%d", core.FnKey(f), id.Name, nDataW), p.Pos(st.Pos()), "field "+id.Name+" of attestation data that was obtained from elsewhere is overwritten ("+ds.D(fa.X).String()+"): the attestations signed and submitted no longer carry the data the beacon nodes supplied")
+		})
+	}
+	if nDataW == 0 {
+		r.Hold("C04.l", "obtained-data-not-written", "", "the attester writes no field of attestation data it did not build itself")
+	}
 
 	// (f) what is signed is what is submitted: the sign call and the constructor call in the same function share argument values
 	for _, f := range p.FuncsIn(attRel) {
